@@ -1330,7 +1330,12 @@ pub fn gen_c16(rng: &mut Rng, count: usize, thorough: bool) -> Vec<Case> {
     }
     let vals = values();
     while out.len() < count {
-        match rng.below(3) {
+        match rng.below(4) {
+            3 => {
+                // the string form itself (also evaluated by the ECMAScript oracle)
+                let v = if rng.chance(1, 2) { rng.pick(&vals).clone() } else { rand_value(rng, 3) };
+                out.push(helper("string-form", "to_string", vec![v]));
+            }
             0 => {
                 let n = rng.below(6);
                 let args: Vec<Value> = (0..n).map(|_| if rng.chance(1, 2) { rng.pick(&vals).clone() } else { rand_value(rng, 2) }).collect();
